@@ -19,3 +19,9 @@ package types
 // ---- a consensus state reports the client type of its own light client (C13: exported genesis validates) ----
 // verif:func (ConsensusState).ClientType
 //@ ensures [type-agree] result == (&ClientState{}).ClientType()
+
+// ---- C15: creating / upgrading a TSS client from a governance proposal never panics --------------------------------
+// verif:func (ClientState).Initialize
+//@ nopanic dryrun
+// verif:func (ClientState).UpgradeState
+//@ nopanic dryrun
